@@ -122,7 +122,10 @@ def run(O, P):
         chained = kind.startswith("chained")
         cfg = vlib.default_config(chainSourceMap=chained, telemetryVerbosity=["DEBUG", "OFF", "INFORMATION", "MANDATORY", "DEBUG"][i % 5])
         fa, fb = "/app/src/a%d.js" % i, "/app/lib/b%d.js" % i
-        if i % 4 == 3:
+        if i % 9 == 4:
+            # directly under the root: the directory is the root, not the empty path
+            fa, fb = "/a%d.js" % i, "/b%d.js" % i
+        elif i % 4 == 3:
             # spellings that are not normalised paths
             fa = rng.choice(["/app/lib/../src/a%d.js", "/app/./src/a%d.js", "/app//src/a%d.js", "./src/a%d.js", "src/../a%d.js"]) % i
         elif i % 5 == 2:
@@ -238,6 +241,16 @@ def run(O, P):
                             % (fn, f["file"], f["line"], want_file, exp_line, mode, h["kind"]), stack=st if isinstance(st, str) else fr[:6]); failed = True; break
                 if failed:
                     break
+            if failed:
+                break
+            # the same frames looked up by line only: a position somewhere on the line is on that line
+            for lo in (r.get("lineonly") or []):
+                if lo.get("fn") not in ("thrower", None) or not isinstance(lo.get("withcol"), dict) or not isinstance(lo.get("nocol"), dict):
+                    continue
+                if (lo["withcol"].get("path"), lo["withcol"].get("line")) != (lo["nocol"].get("path"), lo["nocol"].get("line")):
+                    bad("a lookup without a column (line %s of %s) answers %s:%s, the lookup of the frame's own position (column %s) answers %s:%s"
+                        % (lo["line"], file, lo["nocol"].get("path"), lo["nocol"].get("line"), lo["column"], lo["withcol"].get("path"), lo["withcol"].get("line"))); failed = True; break
+                O.coverage["line_only_lookups"] = O.coverage.get("line_only_lookups", 0) + 1
             if failed:
                 break
         if not failed:
